@@ -2,8 +2,9 @@
    probe's blocking structure, processResultChannel) over abstract timers.
    Executable definitions only; proofs are in RunProofs.v.
 
-   Addresses are numbers (the IPv4 address; the scan port is the same for the whole run, so
-   "host:port" keys of the Go device map are in bijection with the addresses).
+   A host is a number (the IPv4 address), a port is a number; the Go device map is keyed by the
+   string host+":"+port, i.e. by the PAIR (host, port): two registered devices on one host with
+   different ports are different keys. A run scans one port ([port]) on every host it is given.
    Time is an abstract number of ticks (N); [None] as a time means "never". *)
 From Coq Require Import String Ascii NArith List Bool.
 From LLRP Require Import Discover.Naming.
@@ -15,26 +16,28 @@ Inductive opstate := Up | Down | UnknownState.
 
 Record device := mk_device {
   d_name : list N;
-  d_addr : option N;      (* None: no tcp protocol info, or empty host/port, or another port: not a key *)
+  d_addr : option (N * N); (* (host, port); None: no tcp protocol info, or empty host/port: not a key *)
   d_state : opstate
 }.
 
 (* makeDeviceMap: for _, d := range devices { deviceMap[host+":"+port] = d }
    a later device with the same address overwrites an earlier one *)
-Definition dev_map := N -> option device.
+Definition dev_map := N * N -> option device.
+Definition key_eqb (x y : N * N) : bool := (fst x =? fst y) && (snd x =? snd y).
 Definition map_add (m : dev_map) (d : device) : dev_map :=
   match d_addr d with
   | None => m
-  | Some a => fun x => if x =? a then Some d else m x
+  | Some a => fun x => if key_eqb x a then Some d else m x
   end.
 Definition make_device_map (devs : list device) : dev_map :=
   fold_left map_add devs (fun _ => None).
 
 Definition is_up (d : device) : bool := match d_state d with Up => true | _ => false end.
 
-(* ipWorker: if d, found := deviceMap[addr]; found { if d.OperatingState == Up { continue } } *)
-Definition skip (m : dev_map) (a : N) : bool :=
-  match m a with Some d => is_up d | None => false end.
+(* ipWorker: addr := ipStr + ":" + params.scanPort
+             if d, found := deviceMap[addr]; found { if d.OperatingState == Up { continue } } *)
+Definition skip (m : dev_map) (port a : N) : bool :=
+  match m (a, port) with Some d => is_up d | None => false end.
 
 (* ---- behaviours of a probed host ---- *)
 Definition caps_t := option (N * N * list N).     (* manufacturer, model, firmware *)
@@ -98,14 +101,14 @@ Record wstate := mk_wstate {
 Definition w_init (t0 : N) : wstate := mk_wstate (Some t0) false [] [].
 
 (* one iteration of ipWorker's loop for address [a]; [dl] is the context's deadline *)
-Definition worker_step (tm : timers) (dl : N) (m : dev_map) (hosts : N -> behaviour)
+Definition worker_step (tm : timers) (dl : N) (m : dev_map) (port : N) (hosts : N -> behaviour)
            (st : wstate) (a : N) : wstate :=
   if stopped st then st else
   match clock st with
   | None => st
   | Some t =>
     if dl <=? t then mk_wstate (Some t) true (probed st) (reported st)      (* <-ctx.Done() *)
-    else if skip m a then st                                               (* continue *)
+    else if skip m port a then st                                              (* continue *)
     else
       match probe_time tm (hosts a) with
       | None => mk_wstate None false (a :: probed st) (reported st)
@@ -118,22 +121,22 @@ Definition worker_step (tm : timers) (dl : N) (m : dev_map) (hosts : N -> behavi
       end
   end.
 
-Definition worker_run tm dl m hosts (addrs : list N) (t0 : N) : wstate :=
-  fold_left (worker_step tm dl m hosts) addrs (w_init t0).
+Definition worker_run tm dl m port hosts (addrs : list N) (t0 : N) : wstate :=
+  fold_left (worker_step tm dl m port hosts) addrs (w_init t0).
 
 (* ---- a run: the workers receive arbitrary address lists; autoDiscover returns when all workers
    have returned (wgIPWorkers.Wait) ---- *)
 Definition max_opt (a b : option N) : option N :=
   match a, b with Some x, Some y => Some (N.max x y) | _, _ => None end.
 
-Definition run_time tm dl m hosts (work : list (list N)) : option N :=
-  fold_left (fun acc addrs => max_opt acc (clock (worker_run tm dl m hosts addrs 0))) work (Some 0).
+Definition run_time tm dl m port hosts (work : list (list N)) : option N :=
+  fold_left (fun acc addrs => max_opt acc (clock (worker_run tm dl m port hosts addrs 0))) work (Some 0).
 
-Definition run_reported tm dl m hosts (work : list (list N)) : list (N * info) :=
-  flat_map (fun addrs => reported (worker_run tm dl m hosts addrs 0)) work.
+Definition run_reported tm dl m port hosts (work : list (list N)) : list (N * info) :=
+  flat_map (fun addrs => reported (worker_run tm dl m port hosts addrs 0)) work.
 
-Definition run_probed tm dl m hosts (work : list (list N)) : list N :=
-  flat_map (fun addrs => probed (worker_run tm dl m hosts addrs 0)) work.
+Definition run_probed tm dl m port hosts (work : list (list N)) : list N :=
+  flat_map (fun addrs => probed (worker_run tm dl m port hosts addrs 0)) work.
 
 (* processResultChannel: a result whose name is not registered becomes a discovered device;
    one whose name is registered updates that device instead *)
